@@ -475,7 +475,7 @@ pub fn extract_field_option(tag: &str) -> Option<char> {
     // Format is :NNO: where NN is field number and O is optional letter
     if tag.len() >= 5 && tag.starts_with(':') && tag.ends_with(':') {
         let inner = &tag[1..tag.len() - 1];
-        if inner.len() == 3 && inner[0..2].chars().all(|c| c.is_numeric()) {
+        if inner.len() == 3 && inner.is_ascii() && inner[0..2].chars().all(|c| c.is_numeric()) {
             return inner.chars().nth(2);
         }
     }
@@ -485,7 +485,7 @@ pub fn extract_field_option(tag: &str) -> Option<char> {
 /// Parse field with optional suffix (e.g., "20C" -> ("20", Some('C')))
 pub fn parse_field_with_suffix(input: &str) -> (String, Option<char>) {
     if let Some(last_char) = input.chars().last()
-        && last_char.is_alphabetic()
+        && last_char.is_ascii_alphabetic()
         && input[..input.len() - 1].chars().all(|c| c.is_numeric())
     {
         return (input[..input.len() - 1].to_string(), Some(last_char));
